@@ -46,6 +46,21 @@ class QModel:
         return min(((r[0], -r[1]) for r in self.q.values()), default=None)
 
 
+class ModelDropped(Exception):
+    """internal: under C01 the lockstep model was abandoned after a C07-class mismatch"""
+
+
+class _NullModel:
+    """absorbs model updates once the model was dropped"""
+    now = 0
+    q = {}
+    paused = {}
+    cancelled = frozenset()
+
+    def __getattr__(self, name):
+        return lambda *a, **k: None
+
+
 class Act:
     """Action of a generated event: runs its script, logs itself."""
     def __init__(self, runner, ev):
@@ -76,12 +91,26 @@ class EnvRunner(core.Hooks):
         self.trace = []          # dispatch sequence for the digest
         self.prev_now = 0
         self.in_dispatch = None
+        self.model_ok = True
+        self.unpaused_labels = set()
 
     # ---- helpers -------------------------------------------------------
     def bump(self, d, k, n=1):
         d[k] = d.get(k, 0) + n
 
-    def fail(self, clause, msg, kind=None):
+    def fail(self, clause, msg, kind=None, labels=()):
+        """Report a violated clause.  A check reports only its own property's clauses:
+        * C07 owns order/clock violations that involve an event it resumed (the consequence of a wrong re-insertion);
+        * under C01 a pause/resume/cancel mismatch (C07's business) does not end the run: the model is dropped and the
+          run continues with the model-free clauses (minimum of the real queue, clock, at-most-once, run end)."""
+        if self.own == 'C07' and clause.startswith('C01') and any(lb in self.unpaused_labels for lb in labels):
+            clause = 'C07.a'
+            msg = 'after a resume: ' + msg
+        if self.own == 'C01' and not clause.startswith('C01'):
+            if self.model_ok:
+                self.model_ok = False
+                self.stats['model_dropped'] = self.stats.get('model_dropped', 0) + 1
+            raise ModelDropped()
         extra = {'kind': kind} if kind else {}
         v = Violation(clause, msg, step=self.step_no, time=self.env.now, extra=extra)
         v.stats = self.stats
@@ -103,6 +132,14 @@ class EnvRunner(core.Hooks):
             e._simv_label = f'T{self.term_n}'
 
     def compare_state(self, after_op):
+        if not self.model_ok:
+            return
+        try:
+            self._compare_state(after_op)
+        except ModelDropped:
+            self.model = _NullModel()
+
+    def _compare_state(self, after_op):
         """Real queue / paused list vs the model, as multisets."""
         env, m = self.env, self.model
         real_q, real_p = {}, {}
@@ -269,34 +306,48 @@ class EnvRunner(core.Hooks):
         if not any(e is x for x in self.snap):
             self.fail('C01.a', f'executed event {lb} was not in the queue', 'notqueued')
         if (e.time, -e.event_type) != self.min_key:
+            first = [self.label_of(x) for x in self.snap if (x.time, -x.event_type) == self.min_key]
             self.fail('C01.a', f'executed {lb} (time={e.time}, priority={float(e.event_type)}) but the '
                       f'queue held an event with time={self.min_key[0]} priority={-self.min_key[1]}',
-                      'notmin')
+                      'notmin', labels=[lb] + first)
         if env.now != e.time:
-            self.fail('C01.b', f'clock is {env.now} after executing an event due at {e.time}', 'clock')
+            self.fail('C01.b', f'clock is {env.now} after executing an event due at {e.time}', 'clock', labels=[lb])
         if env.now < self.prev_now:
-            self.fail('C01.b', f'clock went backwards: {self.prev_now} -> {env.now}', 'backwards')
+            self.fail('C01.b', f'clock went backwards: {self.prev_now} -> {env.now}', 'backwards', labels=[lb])
         if any(e is x for x in env._events):
             self.fail('C01.d', f'executed event {lb} is still queued', 'requeued')
-        if rec is None:
-            self.fail('C01.f', f'executed event {lb} is not pending in the model '
-                      f'(model queue: {sorted(map(str, m.q))})', 'unknown')
-        if rec[0] != e.time:
-            self.fail('C07.a' if self.ever_unpaused(lb) else 'C01.f',
-                      f'event {lb} executed at {e.time}, model expected {rec[0]}', 'exec_time')
-        new = self.log[self.log_len:]
-        mine = [x for x in new if x[0] == lb]
-        if lb in m.cancelled:
-            if mine:
-                self.fail('C07.b', f'action of cancelled event {lb} ran', 'cancelled_ran')
-        elif isinstance(e.action, Act):
-            if len(mine) != 1:
-                self.fail('C01.d', f'action of {lb} ran {len(mine)} times in its dispatch', 'count')
-            if self.exec_count.get(lb):
-                self.fail('C01.d', f'action of {lb} ran again', 'twice')
-            self.exec_count[lb] = 1
-        if len(new) != len(mine):
-            self.fail('C01.d', f'dispatch of {lb} ran actions {new}', 'foreign')
+        if not self.model_ok:
+            # model-free remainder: the action of a live harness event runs exactly once in its dispatch
+            new = self.log[self.log_len:]
+            if isinstance(e.action, Act) and not e.cancelled:
+                if len([x for x in new if x[0] == lb]) != 1 or self.exec_count.get(lb):
+                    self.fail('C01.d', f'action of {lb} ran {len(new)} times / again', 'count')
+                self.exec_count[lb] = 1
+            self.trace.append((str(lb), e.time))
+            self.in_dispatch = None
+            return
+        try:
+            if rec is None:
+                self.fail('C01.f', f'executed event {lb} is not pending in the model '
+                          f'(model queue: {sorted(map(str, m.q))})', 'unknown')
+            if rec[0] != e.time:
+                self.fail('C07.a' if self.ever_unpaused(lb) else 'C01.f',
+                          f'event {lb} executed at {e.time}, model expected {rec[0]}', 'exec_time')
+            new = self.log[self.log_len:]
+            mine = [x for x in new if x[0] == lb]
+            if lb in m.cancelled:
+                if mine:
+                    self.fail('C07.b', f'action of cancelled event {lb} ran', 'cancelled_ran')
+            elif isinstance(e.action, Act):
+                if len(mine) != 1:
+                    self.fail('C01.d', f'action of {lb} ran {len(mine)} times in its dispatch', 'count')
+                if self.exec_count.get(lb):
+                    self.fail('C01.d', f'action of {lb} ran again', 'twice')
+                self.exec_count[lb] = 1
+            if len(new) != len(mine):
+                self.fail('C01.d', f'dispatch of {lb} ran actions {new}', 'foreign')
+        except ModelDropped:
+            self.model = _NullModel()
         self.trace.append((str(lb), e.time))
         self.in_dispatch = None
         self.compare_state('dispatch')
@@ -308,7 +359,6 @@ class EnvRunner(core.Hooks):
         lib = self.lib
         self.env = env = lib.Environment()
         core.begin_run(self, env, self.case['tiebreak'])
-        self.unpaused_labels = set()
         self.exec_count = {}
         m = self.model
         for drv in self.case['driver']:
@@ -373,6 +423,7 @@ def run_case(case, own):
 # ---------------------------------------------------------------------------
 PRIOS = (2, 3, 4, 5, 6, 7, 8, 9, 10, 11, 4.9, 5.5, 1.5, 7.25, 10.5, 11.5)
 DELAYS = (0, 0, 0.25, 0.5, 0.5, 1, 1, 1.5, 2, 3)
+DEC_DELAYS = (0, 0.1, 0.2, 0.3, 0.3, 0.7, 1.1, 0.1 + 0.2)   # not exactly representable: nearly equal, unequal times
 DURS = (0, 0.25, 0.5, 1, 1, 2, 3, 5)
 
 
@@ -385,6 +436,8 @@ class _Gen:
         self.pause_bias = pause_bias
         self.prios = rng.sample(PRIOS, 3) if few_prios else PRIOS
         self.delays = rng.sample(DELAYS, 3) if few_prios else DELAYS
+        if rng.random() < 0.12:
+            self.delays = DEC_DELAYS
 
     def asset(self):
         return self.rng.randint(1, self.n_assets)
